@@ -15,6 +15,10 @@ using namespace bpp;
 #include <iostream>
 using namespace std;
 
+#ifdef BPP_CORE_VERIF
+void (* bpp::verif::parameterAudit)(const Parameter*, const char*) = nullptr;
+#endif
+
 /******************************************************************************/
 
 ParameterEvent::ParameterEvent(Parameter* parameter) : parameter_(parameter) {}
@@ -26,6 +30,9 @@ Parameter::Parameter(const std::string& name, double value, std::shared_ptr<Cons
 {
   setValue(value);
   setPrecision(precision);
+#ifdef BPP_CORE_VERIF
+  if (verif::parameterAudit) verif::parameterAudit(this, "constructor");
+#endif
 }
 
 Parameter::Parameter(const Parameter& p) :
@@ -43,6 +50,9 @@ Parameter& Parameter::operator=(const Parameter& p)
   precision_      = p.precision_;
   constraint_     = p.constraint_;
   listeners_      = p.listeners_;
+#ifdef BPP_CORE_VERIF
+  if (verif::parameterAudit) verif::parameterAudit(this, "operator=");
+#endif
   return *this;
 }
 
@@ -62,6 +72,9 @@ void Parameter::setValue(double value)
     ParameterEvent event(this);
     fireParameterValueChanged(event);
   }
+#ifdef BPP_CORE_VERIF
+  if (verif::parameterAudit) verif::parameterAudit(this, "setValue");
+#endif
 }
 
 /** Precision: ********************************************************************/
@@ -79,6 +92,9 @@ void Parameter::setConstraint(std::shared_ptr<ConstraintInterface> constraint)
     throw ConstraintException("Parameter::setConstraint", this, value_);
 
   constraint_ = constraint;
+#ifdef BPP_CORE_VERIF
+  if (verif::parameterAudit) verif::parameterAudit(this, "setConstraint");
+#endif
 }
 
 
